@@ -226,6 +226,18 @@ int reb_binary_diff(char* buf1, size_t size1, char* buf2, size_t size2, char** b
                 for (unsigned int i=0;i<field1.size/sizeof(struct reb_particle);i++){
                     fields_differ |= reb_particle_diff(pb1[i],pb2[i]);
                 }
+            }else if (strcmp(reb_binary_field_descriptor_for_type(field1.type).name, "var_config")==0){
+                // Compare member-wise. The sim pointer is a memory address and must be ignored.
+                struct reb_variational_configuration* vc1 = (struct reb_variational_configuration*)(buf1+pos1);
+                struct reb_variational_configuration* vc2 = (struct reb_variational_configuration*)(buf2+pos2);
+                for (unsigned int i=0;i<field1.size/sizeof(struct reb_variational_configuration);i++){
+                    fields_differ |= (vc1[i].order != vc2[i].order);
+                    fields_differ |= (vc1[i].index != vc2[i].index);
+                    fields_differ |= (vc1[i].testparticle != vc2[i].testparticle);
+                    fields_differ |= (vc1[i].index_1st_order_a != vc2[i].index_1st_order_a);
+                    fields_differ |= (vc1[i].index_1st_order_b != vc2[i].index_1st_order_b);
+                    fields_differ |= (vc1[i].lrescale != vc2[i].lrescale);
+                }
             }else{
                 if (memcmp(buf1+pos1,buf2+pos2,field1.size)!=0){
                     fields_differ = 1;
